@@ -54,7 +54,7 @@ def time_average(
     time_interval = snapshots.snapshots[1].timestep - \
         snapshots.snapshots[0].timestep
     time_interval *= dt
-    time_nsnapshot = int(time_period / time_interval)
+    time_nsnapshot = int(round(time_period / time_interval, 8))
     # save the time averaged results
     results = np.zeros((
         snapshots.nsnapshots - time_nsnapshot,
